@@ -340,6 +340,7 @@ func (s *session) continueUntilWait(sprint *sprint, currentRun flows.Run, node f
 			flow := s.pushedFlow.flow
 			currentRun = runs.NewRun(s, s.pushedFlow.flow, currentRun)
 			s.addRun(currentRun)
+			step = nil // the new run has no steps yet
 
 			// our destination is the first node in that flow... if such a node exists
 			if len(flow.Nodes()) > 0 {
@@ -380,6 +381,7 @@ func (s *session) continueUntilWait(sprint *sprint, currentRun flows.Run, node f
 			if parentRun != nil && parentRun.Status() == flows.RunStatusActive {
 				childRun := currentRun
 				currentRun = parentRun
+				step, _, _ = currentRun.PathLocation() // events now belong to the parent's current step
 
 				// as long as we didn't fail, we can try to resume it
 				if childRun.Status() != flows.RunStatusFailed {
